@@ -139,6 +139,23 @@ def vmap_model(ip, f, in_axes=0, out_axes=0):
     return PyFn(run, "vmapped")
 
 
+def _pytree_obj(x):
+    """a heap object of a repository class registered as a pytree (liesel registers its dataclasses: @register_dataclass_as_pytree / @dataclass)"""
+    import ast as _ast
+    if not (isinstance(x, Obj) and isinstance(x.cls, RepoClass)):
+        return False
+    decos = [_ast.unparse(d) for d in getattr(x.cls.node, "decorator_list", [])]
+    return any("dataclass" in d for d in decos)
+
+
+def _obj_like(x, fields):
+    o = Obj(x.cls, fields, tag=x.tag)
+    for a in ("dc", "partial", "frozen"):
+        if hasattr(x, a):
+            setattr(o, a, getattr(x, a))
+    return o
+
+
 def tree_flatten_model(ip, tree, is_leaf=None):
     """A-PYTREE: leaves of dicts in SORTED key order (OrderedDict: insertion order), lists / tuples in order; an opaque term is one leaf"""
     import collections
@@ -154,6 +171,9 @@ def tree_flatten_model(ip, tree, is_leaf=None):
         return [x for lv, _d in parts for x in lv], ("list" if isinstance(tree, list) else "tuple", tuple(d for _l, d in parts))
     if tree is None:
         return [], ("none",)
+    if _pytree_obj(tree):
+        parts = [(k, tree_flatten_model(ip, v)) for k, v in tree.f.items()]
+        return [x for _, (lv, _d) in parts for x in lv], ("obj", tuple((k, d) for k, (_l, d) in parts), tree)
     return [tree], ("leaf",)
 
 
@@ -167,6 +187,8 @@ def tree_unflatten_model(ip, treedef, leaves):
             return None
         if d[0] in ("dict", "odict"):
             return {k: build(sub) for k, sub in d[1]}
+        if d[0] == "obj":
+            return _obj_like(d[2], {k: build(sub) for k, sub in d[1]})
         out = [build(sub) for sub in d[1]]
         return out if d[0] == "list" else tuple(out)
     return build(treedef)
@@ -181,6 +203,8 @@ def tree_map_model(ip, f, tree, *rest):
         return out if isinstance(tree, list) else tuple(out)
     if tree is None:
         return None
+    if _pytree_obj(tree):
+        return _obj_like(tree, {k: tree_map_model(ip, f, v, *[r.f[k] for r in rest]) for k, v in tree.f.items()})
     return ip.call(f, [tree, *rest], {})
 
 
@@ -567,6 +591,27 @@ def ks_unit(n):
 
 for _n in (1, 2, 3):
     ks_unit(_n)
+
+
+@unit("C07.kernel_sequence.stateless_kernel", "C07", [f"{KS}::KernelSequence.start_epoch", f"{KS}::KernelSequence.end_epoch", f"{KS}::KernelSequence.tune", f"{KS}::KernelSequence.end_warmup"],
+      assumptions=["two kernels, the first with an EMPTY kernel state ({} - as GibbsKernel, or a kernel that allocates its state in start_epoch), the second with an arbitrary state; A-PYTREE"])
+def u_ks_stateless(ip):
+    """the lifecycle calls reach EVERY kernel - also one whose state is an empty pytree: start_epoch, end_epoch, tune and end_warmup call each kernel exactly once, in order."""
+    c = ip.ctx
+    install_pytree_models(ip)
+    trace = []
+    kernels = [ghost_kernel(ip, i, trace, IDENTS[i]) for i in range(2)]
+    seq = ip.call(ip.repo(f"{KS}::KernelSequence"), [list(kernels)], {})
+    key, ms, ep = z3.Const("key", U), z3.Const("ms", U), sym_epoch_state(ip)
+    for empty in ({}, None, ()):
+        kstates = [empty, z3.Const("kstate1", U)]
+        for mname in ("start_epoch", "end_epoch", "tune", "end_warmup"):
+            del trace[:]
+            c.ghost["keys_used"] = []
+            extra = [ep] if mname in ("start_epoch", "end_epoch") else ([ep, z3.Const("history", U)] if mname == "tune" else [None])
+            kind, res = try_call(ip, method(ip, seq, mname), [key, list(kstates), ms] + extra, {})
+            c.oblige(f"{mname}.each_kernel_once_in_order.empty_state_{type(empty).__name__}", kind == "ok" and [(t[0], t[1]) for t in trace] == [(mname, 0), (mname, 1)],
+                     got=str([(t[0], t[1]) for t in trace]))
 
 
 def mixins_unit(uid, prop):
